@@ -182,8 +182,99 @@ class Interp:
                 c.attrs[st.target.id] = v
             elif isinstance(st, ast.Expr):
                 continue
+        self._dataclass(c, node, module, frame)
         self._module_level_patches(c, module)
         return c
+
+    def _dataclass(self, c, node, module, frame):
+        """@dataclass: __init__/__eq__/__hash__/ordering synthesised from the annotated fields (as source text, so that the
+        interpreter treats them like any other method)."""
+        opts = None
+        for d in node.decorator_list:
+            target = d.func if isinstance(d, ast.Call) else d
+            nm = ast.unparse(target)
+            r = self.src.resolve(module, nm.split(".")[0])
+            dotted = (r[1] if r and r[0] == "external" else nm) if "." not in nm else \
+                ((r[1] + "." + nm.split(".", 1)[1]) if r and r[0] in ("external", "module") else nm)
+            if dotted.split(".")[-1] == "dataclass" and dotted.startswith("dataclasses"):
+                opts = {"init": True, "eq": True, "order": False, "frozen": False, "unsafe_hash": False, "repr": True}
+                if isinstance(d, ast.Call):
+                    for kw in d.keywords:
+                        v = self.eval(kw.value, frame)
+                        if kw.arg in opts:
+                            opts[kw.arg] = bool(v)
+                        elif kw.arg not in ("slots", "kw_only", "match_args"):
+                            raise AnalysisError(f"dataclass option {kw.arg} is not modelled")
+            elif d is not None and opts is None and not isinstance(d, ast.Call) and nm in ("total_ordering", "functools.total_ordering"):
+                continue
+        if opts is None:
+            return
+        from .symval import FieldSpec
+        fields = []
+        for b in c.bases:
+            fields.extend(getattr(b, "dc_fields", []))
+        for st in node.body:
+            if isinstance(st, ast.AnnAssign) and isinstance(st.target, ast.Name):
+                if "ClassVar" in ast.unparse(st.annotation):
+                    continue
+                nm = st.target.id
+                spec = c.attrs.get(nm, _MISSING) if st.value is not None else _MISSING
+                if not isinstance(spec, FieldSpec):
+                    spec = FieldSpec(default=spec)
+                else:
+                    c.attrs.pop(nm, None)
+                    if spec.default is not _MISSING:
+                        c.attrs[nm] = spec.default
+                spec.name = nm
+                fields = [f for f in fields if f.name != nm] + [spec]
+        c.dc_fields = fields
+        env = Frame(self, module, c.qual + ".<dataclass>", None, cls=c)
+        env.vars["_DC_CLS"] = c
+        env.vars["NotImplemented"] = NotImplemented
+        lines = []
+        cmpf = [f.name for f in fields if f.compare]
+        tup = lambda who: "(" + "".join(f"{who}.{n}, " for n in cmpf) + ")"
+        if opts["init"] and "__init__" not in c.attrs:
+            params, body, seen_default = [], [], False
+            for f in fields:
+                if not f.init:
+                    if f.default is not _MISSING:
+                        env.vars[f"_dflt_{f.name}"] = f.default
+                        body.append(f"    self.{f.name} = _dflt_{f.name}")
+                    elif f.default_factory is not _MISSING:
+                        env.vars[f"_fact_{f.name}"] = f.default_factory
+                        body.append(f"    self.{f.name} = _fact_{f.name}()")
+                    continue
+                if f.default is not _MISSING:
+                    env.vars[f"_dflt_{f.name}"] = f.default
+                    params.append(f"{f.name}=_dflt_{f.name}")
+                    body.append(f"    self.{f.name} = {f.name}")
+                    seen_default = True
+                elif f.default_factory is not _MISSING:
+                    env.vars[f"_fact_{f.name}"] = f.default_factory
+                    env.vars["_DC_MISSING"] = _MISSING
+                    params.append(f"{f.name}=_DC_MISSING")
+                    body.append(f"    self.{f.name} = _fact_{f.name}() if {f.name} is _DC_MISSING else {f.name}")
+                    seen_default = True
+                else:
+                    if seen_default:
+                        raise AnalysisError(f"dataclass {c.qual}: field {f.name} without default after one with default")
+                    params.append(f.name)
+                    body.append(f"    self.{f.name} = {f.name}")
+            if "__post_init__" in c.attrs:
+                body.append("    self.__post_init__()")
+            lines.append("def __init__(self, " + ", ".join(params) + "):\n" + "\n".join(body or ["    pass"]))
+        if opts["eq"] and "__eq__" not in c.attrs:
+            lines.append(f"def __eq__(self, other):\n    if isinstance(other, _DC_CLS):\n        return {tup('self')} == {tup('other')}\n    return NotImplemented")
+            if (opts["frozen"] or opts["unsafe_hash"]) and "__hash__" not in c.attrs:
+                lines.append(f"def __hash__(self):\n    return hash({tup('self')})")
+        if opts["order"]:
+            for nm, op in (("__lt__", "<"), ("__le__", "<="), ("__gt__", ">"), ("__ge__", ">=")):
+                lines.append(f"def {nm}(self, other):\n    if isinstance(other, _DC_CLS):\n        return {tup('self')} {op} {tup('other')}\n    return NotImplemented")
+        for fn in ast.parse("\n".join(lines)).body:
+            ast.fix_missing_locations(fn)
+            c.attrs[fn.name] = Closure(fn, module, f"{c.qual}.{fn.name}", env, cls=c)
+        c.dc_frozen = opts["frozen"]
 
     def _module_level_patches(self, c, module):
         """Module-level statements after the class definition that add to the class: ``Cls.name = value``,
@@ -314,6 +405,19 @@ class Interp:
         return sp.Symbol(f"{obj.name}.{name}", **kw)
 
     def setattr(self, obj, name, value):
+        if isinstance(obj, Phi):
+            # x.attr = v where x is one of two objects depending on a condition: the store (or the property setter) happens on
+            # whichever is live; the other keeps its state
+            memo = {}
+            light = lambda: ([], {k: _cp(v, {}) for k, v in self.heap.items()}, {q: dict(c.attrs) for q, c in self.classes.items()})
+            s0 = light()
+            self.setattr(obj.a, name, value)
+            s1 = light()
+            self.restore(s0)
+            self.setattr(obj.b, name, value)
+            s2 = light()
+            self.restore(self.merge_states(obj.cond, s1, s2))
+            return
         if isinstance(obj, Closure):
             if not hasattr(obj, "fattrs"):
                 obj.fattrs = {}
